@@ -148,6 +148,7 @@ package lexer
 
 //@ func lexHash
 //@ implements lexer.lexFn
+//@ ensures [token-shape] !old(l.done) ==> l.tokEnd == old(l.start) + 1
 
 //@ func lexComment
 //@ implements lexer.lexFn
@@ -156,21 +157,27 @@ package lexer
 
 //@ func lexTaskKeyword
 //@ implements lexer.lexFn
+//@ ensures [token-shape] !old(l.done) ==> l.tokEnd == old(l.start) + 4
 
 //@ func lexLeftParen
 //@ implements lexer.lexFn
+//@ ensures [token-shape] !old(l.done) ==> l.tokEnd == old(l.start) + 1
 
 //@ func lexRightParen
 //@ implements lexer.lexFn
+//@ ensures [token-shape] !old(l.done) ==> l.tokEnd == old(l.start) + 1
 
 //@ func lexOutputOperator
 //@ implements lexer.lexFn
+//@ ensures [token-shape] !old(l.done) ==> l.tokEnd == old(l.start) + 2
 
 //@ func lexLeftBrace
 //@ implements lexer.lexFn
+//@ ensures [token-shape] !old(l.done) ==> l.tokEnd == old(l.start) + 1
 
 //@ func lexRightBrace
 //@ implements lexer.lexFn
+//@ ensures [token-shape] !old(l.done) ==> l.tokEnd == old(l.start) + 1
 
 //@ func lexTaskBody
 //@ implements lexer.lexFn
@@ -214,9 +221,11 @@ package lexer
 
 //@ func lexComma
 //@ implements lexer.lexFn
+//@ ensures [token-shape] !old(l.done) ==> l.tokEnd == old(l.start) + 1
 
 //@ func lexDeclare
 //@ implements lexer.lexFn
+//@ ensures [token-shape] !old(l.done) ==> l.tokEnd == old(l.start) + 2
 //@ use skipWS_unfold(l.input, l.pos)
 
 //@ func lexString
